@@ -313,6 +313,10 @@ func genPowPair(t *rapid.T) (D, D) {
 			l10 = 1
 		}
 		target := float64(genNear(t, 3, 6144, 6145, -6176, -6177, 6111, -6143)) + float64(ir(t, -999, 999, "frac"))/1000
+		if ir(t, 0, 5, "farOut") == 0 {
+			// far beyond the range: the internal 16-bit exponent must not wrap (decimal exponents around +-32768 .. +-43429)
+			target = float64(genNear(t, 600, 32768, 43429, 16384, 65536, 30000)) * float64(1-2*ir(t, 0, 1, "neg"))
+		}
 		yv := target / l10
 		ys := new(big.Float).SetFloat64(yv).Text('e', 16)
 		f, _, _ := big.ParseFloat(ys, 10, 200, big.ToNearestEven)
